@@ -362,6 +362,9 @@ def from_envelope_cases(res, drv, tier, rng):
                                          "suit-manifest": {"suit-manifest-version": 1, "suit-manifest-sequence-number": 9}}}
         deps = {nm: leaf(t) for t, nm in enumerate(names)}
         pl = {f"#root{j}": payload(9, j).hex()}
+        # names that merely *begin* like a name the expressions select: expressions match whole names (C10-r)
+        pl[f"#root{j}_recovery"] = payload(11, j + 1).hex()
+        pl[f"dep_a{j}.suit.sig"] = payload(13, j + 2).hex()
         if order == "deps-only":
             desc["SUIT_Envelope_Tagged"]["suit-integrated-dependencies"] = deps       # the root integrates dependency envelopes only
         elif order == "deps-first":
@@ -375,10 +378,10 @@ def from_envelope_cases(res, drv, tier, rng):
             continue
         b = bytes.fromhex(created["ok"])
         eb = rng.choice([1, 4, 8, 16, 64])
-        dep_re = r"dep_.*\.suit"
+        dep_re = r"dep_.*\.suit" if j % 2 == 0 else r"dep_[a-z]\d+\.suit|dep_inner\d+_\d+\.suit"
         # the omit expression says which *payloads* stay in the envelope; that it also matches the name of a dependency envelope does not keep the
         # dependency from being descended into
-        omit_re = [None, r"[^#].*", r"dep_a.*|#img.*_0", None, r".*\.suit|#root.*"][j % 5]
+        omit_re = [None, r"[^#].*", r"dep_a.*|#img.*_0", r"#root\d+", r".*\.suit|#root.*", r"#root%d|#img%d_0_0" % (j, j), None][j % 7]
         with tempfile.TemporaryDirectory(prefix="verif_c10e_") as d:
             impl = impl_cache(b, eb, omit_re, dep_re, d)
         all_names = names + [f"dep_inner{j}_{t}.suit" for t in range(ndeps)]
